@@ -2,7 +2,7 @@ from checks import durab_common as dc
 
 SPEC = dc.spec(
     "C34", ["C34_replayed_then_deleted", "C34_unlink_discipline", "C34_own_untouched", "C34_second_restart"],
-    "Durab.c34_prop", 3, 24,
+    "Durab.c34_prop", 3, 12,
     level_text="Coq theorems: C34_unlink_discipline / C34_own_untouched, for ANY image and ANY list of leftover WAL files: the start-up "
                "never touches its own WAL and unlinks a file only if it is no longer than a status message or right after a Replay of "
                "it returned nil (a file that cannot be replayed is renamed, never deleted); C34_replayed_then_deleted, for every "
